@@ -62,6 +62,11 @@ def corpus(tier):
     c4 = c04.scenarios('quick')
     take(c4, lambda s: s.features['n_requests'] == 2 and not s.features['origins_differ']
          and s.features['packing'] in ('per_request_wait', 'all_in_one', 'per_request_pipelined'), 40 if q else 200)
+    # reverse proxy switching upstreams between requests of one connection (client waits for each response;
+    # the pipelined variants are the recorded C04 finding and would compare broken behaviour with itself)
+    take(c4, lambda s: s.features['role'] == 'reverse' and s.features['origins_differ']
+         and s.features['packing'] == 'per_request_wait' and s.features.get('connection_header', 'none') == 'none', 12 if q else 60)
+    take(c12.scenarios('quick'), lambda s: s.features['table'] == 'followup_kinds' and not s.features['rewrite'], 8 if q else 19)
     # endings where the proxy closes after producing output (errors, static, relay+close, early response)
     c7 = [s for s in c07.scenarios('quick') if s.mode == 'local']
     take(c7, lambda s: s.features.get('_bound') is None, 60)
